@@ -436,7 +436,7 @@ impl Prop for C18 {
                 } else {
                     x.path("prior.mps.gz")
                 };
-                let r = x.sut(|| ommx::mps::write_file(&other, &target));
+                let r = x.quietly(|x| x.sut(|| ommx::mps::write_file(&other, &target)));
                 match (kind, r) {
                     (_, Err(p)) => x.violate("C18:write_file:panic", format!("an earlier write_file call panicked: {p}")),
                     (3, Ok(Err(e))) => x.violate("C18:write-fails-without-hard-fault", format!("an earlier, fault-free write_file of a one-variable instance returned Err({e})")),
